@@ -294,6 +294,8 @@ def evaluate__substring(self: XPathFunction, context: ta.ContextType = None) -> 
     item: str = self.get_argument(context, default='', cls=str)
     try:
         start = self.get_argument(context, index=1, required=True)
+        if isinstance(start, UntypedAtomic):
+            start = self.cast_to_double(start.value)
         if math.isnan(start) or start == math.inf:
             return ''
         elif start == -math.inf:
@@ -312,6 +314,8 @@ def evaluate__substring(self: XPathFunction, context: ta.ContextType = None) -> 
     else:
         try:
             length = self.get_argument(context, index=2, required=True)
+            if isinstance(length, UntypedAtomic):
+                length = self.cast_to_double(length.value)
             if math.isnan(length) or length <= 0:
                 return ''
         except TypeError:
